@@ -782,7 +782,8 @@ def fam_inbound2(out, tier, rnd):
                                             w.recv(A, W.publish("in/c", b"third", 2, 7, 0, 1))
                                         w.recv(A, W.ack("PUBREL", 7))
                                         if cont == "pubrel+pubrel":
-                                            w.recv(A, W.ack("PUBREL", 7))
+                                            # (a repeated PUBREL carries DUP under 3.1: first byte 0x6A)
+                                            w.recv(A, bytes([0x6A, 2, 0, 7]) if ver == 3 else W.ack("PUBREL", 7))
                                         w.recv(A, W.ack("PUBREL", 8))
                                         w.recv(A, W.publish("in/d", b"q1", 1, 9))
                                     if w.t[A].phase != "lost":
@@ -831,6 +832,8 @@ def fam_resume(out, tier, rnd):
                                 v1, v2, v3 = rnd.choice([(4, 4, 4), (3, 3, 3), (3, 4, 3), (4, 3, 3), (3, 3, 4)])
                                 w = out.world(prof)
                                 w.build(A); w.set(A, "onDisconnection", 1); w.set(A, "window", win)
+                                if rnd.random() < 0.3:
+                                    w.set(A, "timeout", 100)      # the later protocols keep the default of 4: what is resumed keeps its own pace
                                 w.connect(A, keepalive=0, cleanStart=False, version=v1); w.recv(A, W.connack(0, 0))
                                 if len(pat) >= 2 and rnd.random() < 0.5:
                                     w.pokeid(65535 - rnd.randint(1, len(pat) - 1))      # the identifiers in flight straddle the 65535 -> 1 wrap
@@ -1142,6 +1145,11 @@ def fam_corners(out, tier, rnd):
                 for i in ids:
                     if i > 0 and w.t[A].phase == "open":
                         w.recv(A, W.suback(i, [1]) if kind == "subscribe" else W.ack("UNSUBACK", i))
+                # a call that passes the checks and is refused by the encoder leaves nothing behind: the next one is accepted
+                if kind == "subscribe":
+                    w.subscribe(A, [("ok", 1), (TOOLONG, 1)])
+                else:
+                    w.unsubscribe(A, ["ok", TOOLONG])
                 if kind == "subscribe":
                     w.subscribe(A, [("s/y", 2)])
                 else:
